@@ -1225,9 +1225,13 @@ func c02EntPols(t *c02Tok) []string {
 
 // ---------------------------------------------------------------- the workload test
 
-func c02RunTopology(t *testing.T, r *kit.Result, seed int64, stream uint64, caseID string, nreq int, tx bool) {
+func c02RunTopology(t *testing.T, r *kit.Result, seed int64, stream uint64, caseID string, nreq int, tx, cache bool) {
 	rng := kit.NewRand(seed, stream)
-	v := vBoot(t, vOpts{Transactional: tx})
+	// cache=true also gives the policy store its LRU (it has none when caching is disabled)
+	v := vBoot(t, vOpts{Transactional: tx, Cache: cache})
+	if cache {
+		r.Count("topologies_with_policy_lru", 1)
+	}
 	defer v.Close()
 	x := &c02Run{t: t, r: r, v: v, rng: rng, caseID: caseID, w: &c02World{Policies: map[string]*c02Policy{}}}
 	x.w.NSs, x.w.Mounts = c02Topology(rng)
@@ -1292,7 +1296,7 @@ func TestVerif_C02_Requests(t *testing.T) {
 		if !kit.WantCase(caseID) {
 			continue
 		}
-		c02RunTopology(t, r, seed, uint64(shard*1000+i), caseID, nreq, i%2 == 1)
+		c02RunTopology(t, r, seed, uint64(shard*1000+i), caseID, nreq, i%2 == 1, i%4 < 3)
 		if r.NViolations() > 10 {
 			break
 		}
@@ -1308,6 +1312,7 @@ func TestVerif_C02_Requests(t *testing.T) {
 	r.Require("refused:policy:sudo-missing", int64(ntopo))
 	r.Require("refused:no token", int64(ntopo*5))
 	r.Require("staleness_flips", int64(ntopo*5))
+	r.Require("topologies_with_policy_lru", int64(ntopo/2))
 	for _, k := range c02DeadKinds {
 		r.Require("wouldallow_refused:"+k, 2)
 	}
@@ -1338,7 +1343,7 @@ func TestVerif_C02_Concurrent(t *testing.T) {
 	}
 	n := 0
 	for _, tx := range []bool{false, true} {
-		v := vBoot(t, vOpts{Transactional: tx})
+		v := vBoot(t, vOpts{Transactional: tx, Cache: tx})
 		x := &c02Run{t: t, r: r, v: v, rng: kit.NewRand(seed, 999), w: &c02World{NSs: []string{"", "ns1/"}, Policies: map[string]*c02Policy{}}}
 		v.MustDo(vReq{Op: logical.UpdateOperation, Path: "sys/namespaces/ns1", Token: v.Root})
 		for _, ns := range x.w.NSs {
